@@ -10,7 +10,7 @@ cp /tmp/confirm_$ID.diff $D/patch.diff
 cp _seed/demo.py $D/demo.py
 cp _seed/notes.md $D/notes.md 2>/dev/null
 echo "[$ID] suite with change ..."
-/venv/bin/python -m pytest -q -p no:cacheprovider --timeout=900 -n 8 tests 2>&1 | tail -1 > $D/suite_with_change.txt
+/venv/bin/python -m pytest -q -p no:cacheprovider --timeout=900 -n ${CONFIRM_N:-8} tests 2>&1 | tail -1 > $D/suite_with_change.txt
 cat $D/suite_with_change.txt
 PYTHONPATH=$W timeout 1200 /venv/bin/python _seed/demo.py > $D/demo_with_change.txt 2>&1; A=$?
 git apply -R $D/patch.diff
